@@ -196,3 +196,34 @@ where
         }
     })
 }
+
+/// Generated error types: what `conjure_error::encode` makes of a value parsed from `doc`.
+pub fn error_ops<T>(c: &CaseIn) -> Option<Value>
+where
+    T: Serialize + DeserializeOwned + Debug + conjure_error::ErrorType,
+{
+    if c.op != "error" {
+        return None;
+    }
+    Some(match json::client_from_str::<T>(&c.doc) {
+        Err(e) => j!({"parse_error": e.to_string()}),
+        Ok(v) => {
+            let enc = conjure_error::encode(&v);
+            let enc2 = conjure_error::encode(&v);
+            let svc = conjure_error::Error::service_safe("lab", v);
+            let safe: Vec<String> = svc.safe_params().iter().map(|(k, _)| k.to_string()).collect();
+            let unsafe_: Vec<String> = svc.unsafe_params().iter().map(|(k, _)| k.to_string()).collect();
+            let again = json::client_from_str::<T>(&c.doc).ok();
+            j!({
+                "code": format!("{:?}", enc.error_code()),
+                "name": enc.error_name(),
+                "instance_ids_differ": enc.error_instance_id() != enc2.error_instance_id(),
+                "parameters": enc.parameters(),
+                "safe_args": again.as_ref().map(|e| e.safe_args().to_vec()),
+                "service_safe_params": safe,
+                "service_unsafe_params": unsafe_,
+                "wire": json::to_string(&enc).ok(),
+            })
+        }
+    })
+}
